@@ -365,6 +365,21 @@ Theorem C18_generation_table :
 Proof. exact gen_table. Qed.
 Print Assumptions C18_generation_table.
 
+(** for EVERY accepted table design (no hypothesis left but acceptance): the number of simulated individuals is the stored
+    [patient_number] = number of distinct IDs, the ages are exactly the table's per ID at 3 decimals, the draws are design-only *)
+Theorem C18_generation_table_accepted :
+  forall (T : Type) (add : T -> T -> T) (absT : T -> T) (ltb : T -> T -> bool) (key : Z -> T -> Z) (ofQ : Q -> T)
+         (nsrc : nat) (d : design) (ps : dict) (tp : tape T) (o : gen_out T),
+  construct d = Ok ps -> d_visit_type d = Some VtDataframe ->
+  gen_generate T add absT ltb key ofQ nsrc VtDataframe ps tp = GOk o ->
+  exists f, ps = [("patient_number", VInt (Z.of_nat (n_groups f))); ("df_visits", VFrame f)]%string /\
+    List.length (go_ages o) = n_groups f /\ map fst (go_ages o) = table_ids f /\ ages_wellformed T key o /\
+    (forall id ks, In (id, ks) (go_ages o) ->
+       forall k, In k ks <-> exists q, In (IdStr id, Some q) (rows f) /\ k = key 3%Z (ofQ q)) /\
+    consumed T tp o = ((2 + nsrc) * n_groups f)%nat.
+Proof. exact gen_table_accepted. Qed.
+Print Assumptions C18_generation_table_accepted.
+
 (** ... whatever the order of the table's rows *)
 Theorem C18_table_row_order_irrelevant :
   forall (T : Type) (key : Z -> T -> Z) (ofQ : Q -> T) (f f' : frame) (p : Z) (id : string),
